@@ -201,3 +201,17 @@ Definition tri2_of (l : list pt) (t : tri) : Q :=
 Definition tri_centroid_of (l : list pt) (t : tri) : pt :=
   let '(i, j, k) := t in
   ((px (vtx l i) + px (vtx l j) + px (vtx l k)) / 3, (py (vtx l i) + py (vtx l j) + py (vtx l k)) / 3).
+
+(* expectation of the grid_samples-draw estimator: each pass of the loop draws its own u, so by linearity
+   of expectation it is the average of the per-draw expectations [expected_estimate] *)
+Definition expected_emissivity (areas means : list Q) (n : nat) : Q :=
+  Qsum (repeat (expected_estimate areas means) n) / inject_Z (Z.of_nat n).
+
+(* a deterministic variant: sample i takes the triangle found at the stratum mid-point
+   v_i = total * (i + 1/2) / n of the cumulative area instead of total * uniform() *)
+Definition stratified_estimate (areas means : list Q) (n : nat) : Q :=
+  let total := Qsum areas in
+  Qsum (map (fun i => nth (Z.to_nat (select (cumulative areas)
+                                            (total * (inject_Z (Z.of_nat i) + (1 # 2)) / inject_Z (Z.of_nat n))))
+                          means 0)
+            (seq 0 n)) / inject_Z (Z.of_nat n).
